@@ -1319,7 +1319,8 @@ class Spec(object):
             t = Op("call", q, *args) if not kw else Op("call", q, *(list(args) + [tuple(sorted(kw.items()))]))
             return self.assumed(t)
         fa = f.node
-        is_gen = (not isinstance(fa, ast.Lambda)) and any(isinstance(n, (ast.Yield, ast.YieldFrom)) for n in ast.walk(fa))
+        from .fold import is_generator
+        is_gen = is_generator(fa)
         if is_gen:
             if self.eager_generators and self.depth < self.inline_depth:
                 r = self.try_eager_generator(f, args, kw)
